@@ -274,7 +274,10 @@ def drift_eval(case, impl):
             return [(f"a diff git can emit is rejected: {err[0]}", "D10" if d10_class(case) else None)]
         return [(f"unexpected error {err[0]}", None)]
     files = impl["ctx"]["files"]
+    glob_files = meta.get("glob_files")
     for mf in meta["files"]:
+        # path arguments list every block of the files they match; the other files of the diff follow the diff-mode rules
+        in_globs = bool(meta.get("globs")) and (glob_files is None or mf["path"] in glob_files)
         listed = {b["attrs"].get("name"): b for b in files.get(mf["path"], [])}
         adds, gaps = mf["adds"], mf["gaps"]
         F = faithful_walk(mf["segs"])
@@ -290,17 +293,17 @@ def drift_eval(case, impl):
             if (inside_add or inside_del) and not (got and got["content_modified"]):
                 expl = "D1/D9" if (known_possible and not inside_add and not f_content) else None
                 out.append((f"{mf['path']}:{name} (lines {s}-{e}): a line strictly inside was {'added/edited' if inside_add else 'deleted'} but the block is {'not listed' if not got else 'not marked content-modified'}", expl))
-            if far and got and not meta.get("globs"):
+            if far and got and not in_globs:
                 expl = "D1/D9" if (known_possible and f_listed) else None
                 out.append((f"{mf['path']}:{name} (lines {s}-{e}): every change is at least two lines away from the block but it is listed (content_modified={got['content_modified']})", expl))
-            if meta.get("globs") and not got:
+            if in_globs and not got:
                 out.append((f"{mf['path']}:{name}: path arguments given but the block is not listed", None))
         for c in mf["classes"]:
             b = next(x for x in mf["blocks"] if x["name"] == c["block"])
             s, e = b["s"], b["e"]
             others_inside = any(s < j < e for j in adds) or any(s <= g and g + 1 <= e for g in gaps)
             got = listed.get(c["block"])
-            if c.get("content") is False and not others_inside and not meta.get("globs"):
+            if c.get("content") is False and not others_inside and not in_globs:
                 # isolated edit of the tag line / end-tag line
                 near = [j for j in adds if s - 1 <= j <= e + 1] + [g for g in gaps if s - 1 <= g + 1 <= e + 1]
                 expected_near = 1
